@@ -97,12 +97,31 @@ const DECL_LINES: &[&str] = &[
     "zl := []\nzl = [zl]\nzl = 1",
     "zt := (1, 2)\nzt = (zt, zt)",
     "zf :: fn a -> a(a) end",
+    // a value compared with, or combined with, a tuple that contains it
+    "zc1 :: fn x -> x <= (x,) end",
+    "zc2 :: fn x -> x >= (x, x) end",
+    "zc3 :: fn x do\n    x == (x,)\n    x + x\nend",
+    "zc4 :: fn x -> x - (x,) end",
+    "zc5 :: fn x -> x * (x, 1) end",
+    "zc6 :: fn x -> x / (x,) end",
+    "zc7 :: fn x -> x < (x,) end",
+    "zc8 :: fn x -> x == [x] end",
+    "zc9 :: fn x, y do\n    x == (y,)\n    y == (x,)\n    x <= y\nend",
     "zg :: fn a, b do\n    a.x * b.y\nend\nzg(1, 2)",
     "Zr :: blob { next: Zr }",
     // mutual recursion between top-level functions, and between values
     "ze :: fn n -> bool do\n    if n == 0 do ret true end\n    ret zo(n - 1)\nend\nzo :: fn n -> bool do\n    if n == 0 do ret false end\n    ret ze(n - 1)\nend",
     "zp :: zq\nzq :: zp",
     "zh :: fn -> zh() end",
+    // dead code after a return, holding things only one phase rejects
+    "ret\nA :: blob { x: int }",
+    "ret 1\nzmake() = 2",
+    "ret\nq: int : external",
+    "ret\n1 = 2",
+    "ret 1\n\"dead\" + 1",
+    // values that are computed and thrown away
+    "zd1 := 1\nzd2 := 2\n(zd1 + zd2) * zd1\n-(zd1 - zd2) / zd2\nzd1 = 3",
+    "zd3 := 1.5\n(zd3 * zd3) + (zd3 - zd3)\nzd3 < zd3\nzd3 = 2.5",
     "zt0 := zt0 + 1",
     "zt1 :: zt1",
     // import forms the language might grow, and `start` obtained through an import
@@ -499,9 +518,9 @@ pub fn generate(seed: u64, corpus: &Corpus, bias: Bias) -> Scenario {
 
     // ---- workload family
     let fam_w: &[usize] = match bias {
-        Bias::General => &[62, 8, 22, 8],
-        Bias::MultiError => &[55, 5, 35, 5],
-        Bias::Sink => &[50, 0, 25, 25],
+        Bias::General => &[60, 8, 22, 8, 2],
+        Bias::MultiError => &[54, 5, 35, 5, 1],
+        Bias::Sink => &[49, 0, 25, 25, 1],
     };
     let family = w.weighted(fam_w);
     let mut base;
@@ -519,6 +538,28 @@ pub fn generate(seed: u64, corpus: &Corpus, bias: Bias) -> Scenario {
             let p = crate::modgen::generate(seed);
             base = p.concrete.clone();
             notes.insert("project".into(), p.describe());
+        }
+        4 => {
+            // a deep graph of global definitions with sharing: every constant is the sum of the two before it
+            family_name = "global-dependency-chain";
+            let main = format!("{}/chain/main.sy", SIM_ROOT);
+            base = Concrete::new(&main);
+            let n = *w.pick(&[3usize, 8, 20, 40, 65, 90]);
+            let mut t = String::new();
+            let mut order: Vec<usize> = (0..n).collect();
+            if w.chance(1, 2) {
+                // definitions in a scrambled order: the compiler has to sort them
+                w.shuffle(&mut order);
+            }
+            for k in order {
+                if k < 2 {
+                    t.push_str(&format!("zk{} :: 1\n", k));
+                } else {
+                    t.push_str(&format!("zk{} :: zk{} + zk{}\n", k, k - 1, k - 2));
+                }
+            }
+            t.push_str(&format!("start :: fn do\n    zk{} <=> zk{}\nend\n", n - 1, n - 1));
+            base.files.insert(main, t);
         }
         3 => {
             family_name = "long-literal";
